@@ -2,6 +2,7 @@
 //! with `--features verif`) on generated or replayed cases and prints one line per case:
 //! `<PROP> <args…> | <canonical implementation result>`.
 mod conn;
+mod hand;
 mod sess;
 mod util;
 mod wire;
@@ -12,6 +13,7 @@ use util::Rng;
 fn run_line(prop: &str, args: &[&str]) -> String {
     match prop {
         "C06" => conn::run(args),
+        "C08" | "C09" | "C10" | "C11" | "C20" | "C01" => hand::run(args),
         "C07" => wire::run(args),
         "C12" => sess::run12(args),
         "C13" => sess::run13(args),
@@ -23,6 +25,7 @@ fn run_line(prop: &str, args: &[&str]) -> String {
 fn gen(prop: &str, rng: &mut Rng, n: usize) -> Vec<String> {
     match prop {
         "C06" => conn::gen(rng, n),
+        "C08" | "C09" | "C10" | "C11" | "C20" | "C01" => hand::gen(rng, n, prop),
         "C07" => wire::gen(rng, n),
         "C12" => sess::gen12(rng, n),
         "C13" => sess::gen13(rng, n),
@@ -97,7 +100,7 @@ fn emit(out: &mut impl Write, prop: &str, args_line: &str) {
 }
 
 fn main() {
-    std::panic::set_hook(Box::new(|_| {}));
+    if std::env::var("VERIF_PANIC_TRACE").is_err() { std::panic::set_hook(Box::new(|_| {})); }
     let argv: Vec<String> = std::env::args().collect();
     let stdout = std::io::stdout();
     let mut out = std::io::BufWriter::new(stdout.lock());
